@@ -164,3 +164,57 @@ impl Rng {
     pub fn next(&mut self) -> u64 { let mut x = self.0; x ^= x << 13; x ^= x >> 7; x ^= x << 17; self.0 = x; x }
     pub fn below(&mut self, n: usize) -> usize { (self.next() % (n as u64)) as usize }
 }
+
+
+// ---- seeded random terms and binding sets (used by the enumerators next to their fixed pools) ---------------
+/// atoms the built-ins treat specially are in the pool on purpose (punctuation for join, `x*` for functor)
+const ATOMS: [&str; 9] = ["a", "b", "c", "tea", ",", "?", ".", "noun*", "é"];
+pub fn rand_leaf(r: &mut Rng, nvars: usize, anon: bool) -> Unifiable {
+    match r.below(if anon { 10 } else { 9 }) {
+        0 | 1 | 2 => atom(ATOMS[r.below(ATOMS.len())]),
+        3 => SInteger([0i64, 1, -3, 9007199254740993][r.below(4)]),
+        4 => SFloat([0.5f64, 1.0, -0.0, 2.5][r.below(4)]),
+        5 | 6 | 7 | 8 => { let k = 1 + r.below(nvars.max(1)); var(k, &format!("$V{}", k)) },
+        _ => Anonymous,
+    }
+}
+pub fn rand_list(r: &mut Rng, depth: usize, nvars: usize, anon: bool, tail: bool) -> Unifiable {
+    let n = r.below(4);
+    let mut es = vec![];
+    for _ in 0..n { es.push(rand_term(r, depth.saturating_sub(1), nvars, anon)); }
+    let t = if tail && n > 0 && r.below(3) == 0 { let k = 1 + r.below(nvars.max(1)); Some(var(k, &format!("$V{}", k))) } else { None };
+    mk_list(&es, t)
+}
+pub fn rand_term(r: &mut Rng, depth: usize, nvars: usize, anon: bool) -> Unifiable {
+    if depth == 0 { return rand_leaf(r, nvars, anon); }
+    match r.below(6) {
+        0 | 1 | 2 => rand_leaf(r, nvars, anon),
+        3 => { let n = 1 + r.below(3); let mut ts = vec![atom(["f", "g", "noun_phrase"][r.below(3)])]; for _ in 0..n { ts.push(rand_term(r, depth - 1, nvars, anon)); } SComplex(ts) },
+        _ => rand_list(r, depth, nvars, anon, true),
+    }
+}
+/// bindings without cycles and without occurs-check situations: variable i is bound (if at all) to a term over
+/// variables with a LARGER index only
+pub fn rand_ss(r: &mut Rng, nvars: usize, lists_only_tail: bool) -> Vec<Option<std::rc::Rc<Unifiable>>> {
+    let mut ss: Vec<Option<std::rc::Rc<Unifiable>>> = vec![None; nvars + 1];
+    for i in 1..=nvars {
+        if r.below(2) == 0 { continue; }
+        let t = shift_vars(&(if lists_only_tail && r.below(2) == 0 { rand_list(r, 1, nvars, false, true) } else { rand_term(r, 1, nvars, false) }), i, nvars);
+        ss[i] = Some(std::rc::Rc::new(t));
+    }
+    ss
+}
+/// renumbers the variables of t into (floor, nvars]; a variable that cannot be placed becomes an atom
+fn shift_vars(t: &Unifiable, floor: usize, nvars: usize) -> Unifiable {
+    match t {
+        LogicVar { id, .. } => { if floor >= nvars { atom("z") } else { let k = floor + 1 + (*id % (nvars - floor)); var(k, &format!("$V{}", k)) } },
+        SComplex(ts) => SComplex(ts.iter().map(|x| shift_vars(x, floor, nvars)).collect()),
+        SLinkedList { term, next, count, tail_var } => {
+            let nt = shift_vars(term, floor, nvars);
+            // a tail variable that became an atom would make the list ill-formed: end the list there instead
+            if *tail_var && !matches!(nt, LogicVar{..}) { return empty(); }
+            SLinkedList { term: Box::new(nt), next: Box::new(shift_vars(next, floor, nvars)), count: *count, tail_var: *tail_var }
+        },
+        x => x.clone(),
+    }
+}
